@@ -23,7 +23,8 @@ make_contribution(cspec)            one contribution object from {'type': ..., *
 set_contributions(model, cspecs)    replace the contribution list of a built model (then model.build() is re-run)
 profiles(model)                     dict of the exposed profiles after model.model(): rp, rs, z, dz, zb, density,
                                     P, Plev, T, nlayers
-gen_spec(rng, ...)                  a random mostly-valid spec (see the function for the knobs)
+gen_spec(rng, ...)                  a random mostly-valid spec (see the function for the knobs; `extended=True`
+                                    draws an inflated atmosphere whose top lies at 0.4 .. several Rp)
 
 Spec (plain dict; numpy arrays allowed, `common.jsonable` makes it JSON):
   planet_mass [Mjup], planet_radius [Rjup], star_radius [Rsun], star_temperature [K],
@@ -285,7 +286,7 @@ def profiles(model):
 REGIMES = {'zero': None, 'thin': (-36.0, -30.0), 'mid': (-24.0, -18.0), 'thick': (-14.0, 4.0)}
 
 
-def gen_spec(rng, nlayers=None, nwn=None, ngas=None, regime=None, with_cia=None, same_grid=True):
+def gen_spec(rng, nlayers=None, nwn=None, ngas=None, regime=None, with_cia=None, same_grid=True, extended=None):
     """random mostly-valid atmosphere.  `regime` in REGIMES picks the table magnitude (cm2):
     zero = fully transparent, thin = tau << 1, mid = tau around 1 somewhere, thick = saturated."""
     nl = int(nlayers if nlayers is not None else rng.integers(2, 41))
@@ -334,12 +335,18 @@ def gen_spec(rng, nlayers=None, nwn=None, ngas=None, regime=None, with_cia=None,
     tmax = max([temp.get('T', 0.0), temp.get('T_surface', 0.0), temp.get('T_top', 0.0)] +
                list(np.ravel(temp.get('tp', [0.0]))) + list(temp.get('temperature_points', [])))
     rp_m = radius * 69911000.0
-    gmin = 3.0 * np.log(hi / lo) * 1.380649e-23 * tmax / (2.0 * 1.66054e-27 * rp_m)
-    grav = float(gmin * 10 ** rng.uniform(0.0, 1.5))
+    # x = H0*ln(pmax/pmin)/Rp decides the extent: z_top/Rp ~ 1/(1-x) - 1 (isothermal, g ~ 1/r^2).  Compact
+    # atmospheres (default): x <= 1/3 (z_top <= 0.4 Rp).  `extended=True`: x up to 0.95 on the nominal
+    # mu = 2 amu, i.e. inflated, low-gravity atmospheres whose top lies at 0.4 .. several planetary radii.
+    glim = np.log(hi / lo) * 1.380649e-23 * tmax / (2.0 * 1.66054e-27 * rp_m)          # x = 1
+    if extended:
+        grav = float(glim / rng.uniform(0.5, 0.95))
+    else:
+        grav = float(3.0 * glim * 10 ** rng.uniform(0.0, 1.5))
     mass = grav * rp_m ** 2 / 6.67384e-11 / 1.898e27
     return dict(planet_mass=float(mass), planet_radius=radius,
                 star_radius=float(10 ** rng.uniform(-0.7, 0.4)), star_temperature=float(rng.uniform(3000, 8000)),
                 nlayers=nl, pmin=lo, pmax=hi, temperature=temp, fill_gases=['H2', 'He'],
                 ratio=float(rng.uniform(0.05, 0.3)), gases=gases, opacities=ops, cia=cia,
                 contributions=[dict(type='absorption')], new_path_method=bool(rng.random() < 0.5),
-                regime=regime)
+                regime=regime, extended=bool(extended))
